@@ -5,6 +5,7 @@ import ClairModel.Model.Apk
 import ClairModel.Model.OsRelease
 import ClairModel.Model.PyMeta
 import ClairModel.Model.Pep440
+import ClairModel.Model.RpmPkg
 
 namespace Driver.C02
 open ClairModel.Bytes ClairModel.Rfc822 ClairModel
@@ -44,6 +45,20 @@ def pyAnswer (path file : Bytes) : String :=
       let nvers := Pep440.project v
       " ".intercalate ["ok", hexB nv.1, hexB (charsToBytes (Pep440.toStr v)), hexB (PyMeta.packageDB path),
         ",".intercalate (nvers.v.map toString)]
+
+def parseRpmInfo (w : String) : Option RpmPkg.Info :=
+  match w.splitOn "," with
+  | [n, e, v, r, s, m, a] =>
+    match toBytes n, e.toInt?, toBytes v, toBytes r, toBytes s, toBytes m, toBytes a with
+    | some n, some e, some v, some r, some s, some m, some a => some ⟨n, e, v, r, s, m, a⟩
+    | _, _, _, _, _, _, _ => none
+  | _ => none
+
+def showRpmPkg (p : RpmPkg.Pkg) : String :=
+  let src := match p.src with
+    | none => ["nosrc"]
+    | some s => ["src", hexB s.name, hexB s.version, hexB s.module]
+  ",".intercalate ([hexB p.name, hexB p.version, hexB p.arch, hexB p.module] ++ src)
 
 def showErr : Err → String
   | .ok => "nil"
@@ -89,6 +104,11 @@ def answer (l : String) : String :=
   | ["py", hp, hf] => match toBytes hp, toBytes hf with
       | some p, some f => pyAnswer p f
       | _, _ => "bad-op"
+  | "rpm" :: ws => match ws.mapM parseRpmInfo with
+      | some is => match RpmPkg.scan is with
+        | some ps => " ".intercalate (s!"ok {ps.length}" :: ps.map showRpmPkg)
+        | none => "err"
+      | none => "bad-op"
   | ["reset"] => "ok"
   | _ => "bad-op"
 
